@@ -81,6 +81,9 @@ def make_partial(cache: dict[str, set[str]]):
             return ["UnicodeDecodeError"]
         if isinstance(f, ast.Name) and f.id in ("int", "float") and call.args and (names_in(call.args[0]) & ub):
             return ["ValueError"]
+        if la in ("read_next_batch", "read_next_batch_with_custom_metadata") and isinstance(f, ast.Attribute) and txt(f.value) in ("self._reader",):
+            # pyarrow RecordBatchStreamReader: StopIteration at end of stream (a well-framed stream with no batch)
+            return ["StopIteration"]
         if la == "SharedMemory":
             # multiprocessing.shared_memory.SharedMemory(name=..., create=False): FileNotFoundError /
             # PermissionError (OSError) for a missing or foreign segment, ValueError for a bad size
